@@ -32,6 +32,9 @@ def check(rep, tier, seed):
 
         def add(recs_, strict, raw=None, note=""):
             argv = ["create"] + (["--strict"] if strict else []) + cli_samples_arg(sm) + cli_project_arg(None if strict else pr)
+            # verbosity is no part of the outcome (stdout, exit status); the skip summary is an info line, silenced by -q
+            fl = [[], [], [], ["-v"], ["-vv"]][len(jobs) % 5]
+            argv = argv + fl
             mrecs = [("!" if (raw and i in raw) else ",".join(r)) for i, r in enumerate(recs_)]
             mc = "create %d %s %s %s %s" % (1 if strict else 0, ",".join(cols), model_samples(sm),
                                            model_project(None if strict else pr), ";".join(mrecs) if mrecs else "-")
@@ -92,6 +95,15 @@ def check(rep, tier, seed):
     it = iter(exps)
     exps = [next(it) if m is not None else None for m in mcases]
     res = run_cli_many(jobs)
+    # the same runs silenced (-q, -qq): stdout and exit status must not change
+    qsel = rng.sample(range(len(jobs)), min(len(jobs), 40 if tier == "quick" else 400))
+    qjobs = [([a for a in jobs[i][0] if a not in ("-v", "-vv")] + [["-q"], ["-qq"], ["-q", "-q", "-q"]][i % 3], jobs[i][1]) for i in qsel]
+    for i, qj, (rc, so, se) in zip(qsel, qjobs, run_cli_many(qjobs)):
+        rep.count("run-loop:silenced", " ".join(qj[0])[:200], res[i][0] != 0)
+        if (rc == 0) != (res[i][0] == 0) or so != res[i][1] or is_panic(rc, se):
+            rep.fail(kind="property-oracle", cls="run-loop:silenced", case=" ".join(qj[0])[:300], argv=["sfs"] + qj[0], stdin=qj[1].decode(errors="replace")[:200000],
+                     observed={"rc": rc, "stdout": so.decode(errors="replace")[:200]}, expected={"rc": res[i][0], "stdout": res[i][1].decode(errors="replace")[:200]},
+                     detail="silencing the log (-q / -qq) changed the exit status or stdout of the run")
     for job, (rc, so, se), exp, mc, (note, nrec, pr) in zip(jobs, res, exps, mcases, metas):
         stderr = se.decode(errors="replace")
         rep.count("run-loop:" + note.split("@")[0], (mc or note)[:300], note != "clean")
